@@ -164,6 +164,25 @@ def run(tier: str) -> int:
                     except Exception as e:
                         rep.violation(f"atom:{m}:sizes={seq}", f"AtomGrid raised {type(e).__name__}: {e}")
 
+        # pruned atomic grids: every sector asks for the same degree (size) q, so every shell must carry
+        # exactly the grid the rule prescribes for q, whatever sector it falls into
+        for m, t in tabs.items():
+            small_d = [k for k, v in t["deg"] if v <= 400]
+            small_s = [k for k, v in t["size"] if k <= 400]
+            for _ in range(10 if tier == "quick" else 120):
+                rg = OneDGrid(np.array([0.2, 0.7, 1.4, 2.5]), np.ones(4), (0, np.inf))
+                for kind, hi in (("degree", max(small_d)), ("size", max(small_s))):
+                    q = rng.randint(0, hi)
+                    try:
+                        if kind == "degree":
+                            g = AtomGrid.from_pruned(rg, 1.0, r_sectors=[0.5, 1.0], d_sectors=[q, q, q], method=m)
+                        else:
+                            g = AtomGrid.from_pruned(rg, 1.0, r_sectors=[0.5, 1.0], d_sectors=None, s_sectors=[q, q, q], method=m)
+                        for d, sz in zip(np.asarray(g.degrees).tolist(), np.diff(np.asarray(g.indices)).tolist()):
+                            put(m, kind, q, ("pruned", d, sz))
+                    except Exception as e:
+                        rep.violation(f"pruned:{m}:{kind}={q}", f"AtomGrid.from_pruned raised {type(e).__name__}: {e}")
+
     with open(wd / "obs_angular.json", "w") as f:
         json.dump({"obs": obs, "neg": neg}, f)
     extract.write_tables_angular(wd, tabs, "obs_angular.json")
